@@ -97,6 +97,8 @@ class Verifier(Engine, StmtMixin, ExprMixin, CallMixin, BuiltinMixin):
             allp.append(a.vararg.arg)
         if a.kwarg:
             allp.append(a.kwarg.arg)
+        if c.region:
+            allp = [p for p in allp if p in ('self', 'cls') or p in c.params] + [p for p in c.params if p not in allp]
         for p in allp:
             if p in ('self', 'cls') and p not in c.params:
                 if p == 'cls':
@@ -141,7 +143,9 @@ class Verifier(Engine, StmtMixin, ExprMixin, CallMixin, BuiltinMixin):
         if '.' in c.qualname:
             cls = m.classes.get(c.qualname.rsplit('.', 1)[0])
         first = len(self.obligations)
-        self.cur_func_name = f'{c.file[:-3].replace("/", ".")}.{c.qualname}'
+        self.cur_func_name = f'{c.file[:-3].replace("/", ".")}.{c.qualname}' + (('#' + c.region.get('name', 'region')) if c.region else '')
+        if c.region:
+            rep['function'] += '#' + c.region.get('name', 'region')
         ctx = FuncCtx(c.file, c.qualname, node, cls, c)
         self.cur_opaque = set(c.opaque)
         self.facts = []
@@ -167,7 +171,12 @@ class Verifier(Engine, StmtMixin, ExprMixin, CallMixin, BuiltinMixin):
                 for nm, tt in c.locals.items():
                     pass
                 self.local_types = {k: parse_type(v, self.reg.enums) for k, v in c.locals.items()}
-                outs = self.exec_block(node.body, st)
+                body = node.body
+                if c.region:
+                    body = self.region_statements(node, c.region)
+                    rep['region'] = f'L{body[0].lineno}-L{body[-1].end_lineno}: statements of {c.qualname} between the markers; ' \
+                                    'everything before/after is outside this obligation set'
+                outs = self.exec_block(body, st)
                 npaths = 0
                 for o in outs:
                     npaths += 1
@@ -195,6 +204,26 @@ class Verifier(Engine, StmtMixin, ExprMixin, CallMixin, BuiltinMixin):
             rep['status'] = 'vacuous'
             rep['reason'] = 'no obligations generated'
         return rep
+
+    def region_statements(self, node, region):
+        """mechanical extraction of a statement range of the real function body (re-located on every run by
+        the marker texts, so that edits elsewhere in the function do not matter)"""
+        src = self.src.modules[self.fstack[-1].relpath].text.splitlines()
+
+        def text(s_):
+            return '\n'.join(src[s_.lineno - 1:s_.end_lineno])
+        start = end = None
+        for i, s_ in enumerate(node.body):
+            if start is None and region['start'] in text(s_):
+                start = i
+            elif start is not None and region['end'] in text(s_):
+                end = i
+                break
+        if start is not None and end is None and region['end'].startswith('\x00'):
+            end = len(node.body)          # the region runs to the end of the function
+        if start is None or end is None:
+            raise Unsupported('region markers not found in the function body')
+        return node.body[start:end]
 
     def check_post(self, c, o, val, pre):
         st = o.st
